@@ -107,7 +107,22 @@ def build_loss(rec, derivative_keys=None):
         if rec.get("hetmode") == "none_entries":
             het.update({k: None for k, h in zip(pkeys, rec["het"]) if not len(h)})
     dyn = None
-    if R:
+    if R and spinn:
+        def resid_grid(cols, uval, p):          # residual on the tensor grid spanned by the batch columns (time first)
+            th = [jnp.squeeze(p.eq_params[k]) for k in pkeys]
+            grids = jnp.meshgrid(*[cols[:, i] for i in range(nin)], indexing="ij")
+            z = list(grids) + [uval[..., k] for k in range(rec["spM"])] + th
+            return jnp.stack([polyeval(r, z) + 0.0 * grids[0] for r in R], axis=-1)
+        if lkind == "statio":
+            class Eq(PDEStatio):
+                def equation(self, x, u, p):
+                    return resid_grid(x, u(x, p), p)
+        else:
+            class Eq(PDENonStatio):
+                def equation(self, t, x, u, p):
+                    return resid_grid(jnp.concatenate([t, x], axis=1), u(t, x, p), p)
+        dyn = Eq(Tmax=1)
+    elif R:
         if lkind == "ode":
             class Eq(ODE):
                 def equation(self, t, u, p):
